@@ -456,6 +456,44 @@ def width(pattern, flags=0):
     return lo, hi
 
 
+_optg_cache = {}
+
+
+def optional_groups(pattern, flags=0):
+    """Numbers of the capture groups that need not participate in a match (their value may be None):
+    groups under an alternative, under a repeat with minimum 0, under a conditional or a negative
+    assertion. Every other group participates in every match."""
+    key = (pattern, flags)
+    if key in _optg_cache:
+        return _optg_cache[key]
+    out = set()
+
+    def walk(sub, opt):
+        for op, av in sub:
+            if op == C.SUBPATTERN:
+                if av[0] is not None and opt:
+                    out.add(av[0])
+                walk(av[3], opt)
+            elif op == C.BRANCH:
+                for b in av[1]:
+                    walk(b, True)
+            elif op in (C.MAX_REPEAT, C.MIN_REPEAT, getattr(C, 'POSSESSIVE_REPEAT', 'x')):
+                walk(av[2], opt or av[0] == 0)
+            elif op == C.ASSERT:
+                walk(av[1], opt)
+            elif op == C.ASSERT_NOT:
+                walk(av[1], True)
+            elif op == getattr(C, 'ATOMIC_GROUP', 'x'):
+                walk(av, opt)
+            elif op == C.GROUPREF_EXISTS:
+                walk(av[1], True)
+                if av[2] is not None:
+                    walk(av[2], True)
+    walk(parse(pattern, flags), False)
+    _optg_cache[key] = frozenset(out)
+    return _optg_cache[key]
+
+
 def group_width(pattern, group, flags=0):
     tree = parse(pattern, flags)
     sub = _find_group(tree, group)
